@@ -6,7 +6,9 @@ Tie:    (i)   compute_hessian(e, V) vs Py.computeHessian — structural, exact;
         (iii) numeric compile_hessian(e, V)(x) vs the model run over doubles (tolerance + guard).
 Oracle: nested dual numbers (oracle.ref_hess) on the real compile_hessian output and on
         compute_hessian(e, V)[i][j].evaluate(point) at regular points, for V permuted / superset;
-        exact symmetry H == H.T; fast path == general path (the node wrapped as `e + 0`).
+        exact symmetry H == H.T; fast path == general path (the node wrapped as `e + 0`);
+        Parameters in every position × histories (differentiate / compile at v0 ∈ {0, 1, 2, -1, 0.5}, Parameter.set, the OLD
+        callable / symbolic matrix and NEW compile_hessian / compute_hessian) against the dual numbers at the CURRENT values.
 """
 from __future__ import annotations
 
@@ -127,6 +129,12 @@ def cases_for(rng, thorough):
         cases.append((f"{tag}|own", e, own, U))
         if "powpow" in tag and zlib.crc32(tag.encode()) % 2 == 0:
             cases.append((f"{tag}|super-rev", e, [U.scalars[2]] + list(reversed(own)), U))
+    # a Parameter in every position (exponent, coefficient, base, additive term, denominator, inside vector nodes) also as
+    # plain cases of the tie, at the Universe's parameter values; their set histories: param_history_failures
+    for tag, node in param_members(U, U.params[0], U.params[1]):
+        own = J.own_vars(node)
+        cases.append((f"{tag}|own", node, list(own), U))
+        cases.append((f"{tag}|rev+extra", node, [U.scalars[2]] + list(reversed(own)), U))
     for tag, es, V, U2 in J.order_cover_cases(U, "hess"):
         if tag.split("|")[1] == "orders120" and not (tag.startswith(("ps3", "uslog", "uscos")) or thorough):
             continue
@@ -255,12 +263,378 @@ def check_numeric(e, V, xs, with_symbolic=True):
     return fails, checked, 0
 
 
+# ----------------------------------------------------------------------------- Parameters × set histories (checklist 29)
+#
+# C17 speaks about d²[[e]] at the point — and [[e]] reads every Parameter at its CURRENT value.  The Hessian is the gradient of
+# the gradient, so whatever the first differentiation decided on a parameter's VALUE (a shortcut taken because p happened to
+# be 0 or 1, a folded coefficient, a pruned branch) is differentiated again and — through the lru-cached gradient — handed to
+# every later compile_hessian / compute_hessian on the same expression object.  The family: a Parameter in every position
+# (exponent, compound exponent, coefficient, base, additive term, denominator, inside functions, beside the nodes with
+# per-node shortcuts, inside vector nodes) × histories
+#     build e while p = v0, q = w0 (v0 over {0, 1, 2, -1, 0.5}: the values simplifiers have shortcuts for and ordinary ones)
+#     first differentiation at v0 through one channel (compile_hessian | compute_hessian | gradient only |
+#         compile_jacobian + compile_gradient | none = control)
+#     Parameter.set (int / float / NumPy scalar / 0-d array); then the OLD callable, the OLD symbolic matrix, a NEW
+#         compile_hessian, a NEW compute_hessian and the general path — for the own order, a permutation and a superset of V —
+#     a second set (back to 0 / 1 as well), everything built so far again.
+# Every answer is judged against nested dual numbers over the tree at the CURRENT parameter values (oracle.ref_hess reads
+# Parameter.value when it is asked), guarded by central differences of the dual-number gradient (well_conditioned).
+
+PARAM_V0 = [0.0, 1.0, 2.0, -1.0, 0.5]
+PARAM_V1 = [3.0, 0.0, 1.0, -1.0, 0.5, 2.0, -2.0, 2.5, 1.5]
+PARAM_FIRST = ["hessian", "gradient", "jacobian", "symbolic"]      # + "none" (control: nothing differentiated before the set)
+_PTYPES = {"float": float, "int": int, "float64": np.float64, "float32": np.float32, "int64": np.int64,
+           "0d": lambda v: np.array(float(v))}
+
+
+def typed_value(rng, v):
+    """[type name, plain float]: the numeric TYPE in which a value is handed to Parameter(...) / .set(...)"""
+    v = float(v)
+    names = ["float", "float", "float", "float64", "0d"]
+    if v.is_integer():
+        names += ["int", "int", "int64"]
+    if float(np.float32(v)) == v:
+        names.append("float32")
+    return [rng.choice(names), v]
+
+
+def make_value(tv):
+    return _PTYPES[tv[0]](tv[1])
+
+
+def param_members(U, p, q):
+    """(tag, expression over U's variables with the Parameters p, q) — a parameter in every position"""
+    from optyx.core import vectors as Vc
+    from optyx.core import matrices as Mx
+    from optyx.core.expressions import Constant
+    from optyx.core.functions import sin, exp, log, sqrt, tanh
+
+    a, b = U.scalars[0], U.scalars[1]
+    x = U.x
+    x0, x1, x2 = x[0], x[1], x[2]
+    VE = Vc.VectorExpression
+    pos = lambda: a * a + b * b + 1.0          # a base that is positive at every point (a fresh object on every use)
+    Q = np.array([[1.0, 2.0, 0.0], [0.5, 1.0, -1.0], [0.0, 3.0, 2.0]])
+    cs = np.array([1.0, -2.0, 0.5])
+    mk = [
+        # --- exponent: the bare parameter, compound variable-free exponents, exponents that mix parameters and variables
+        ("exp:leaf", lambda: b * a ** p + a * b ** 2),
+        ("exp:sum-base", lambda: (a + 2.0 * b) ** p + a * b),
+        ("exp:pos-base", lambda: pos() ** p),
+        ("exp:fn-base", lambda: exp(tanh(a)) ** p * b),
+        ("exp:two", lambda: a ** p * b ** q),
+        ("exp:nested", lambda: (a ** p) ** q + a * b),
+        ("exp:under-fn", lambda: sin(a ** p) * b),
+        ("exp:in-quotient", lambda: b / (a ** p + 1.0)),
+        ("exp:2p", lambda: a ** (2.0 * p) * b),
+        ("exp:p-q", lambda: pos() ** (p - q) * b),
+        ("exp:-p", lambda: pos() ** (-p) + a * b),
+        ("exp:p/2", lambda: pos() ** (p / 2.0) * a),
+        ("exp:p*q", lambda: a ** (p * q) + b * b * a),
+        ("exp:sin(p)", lambda: pos() ** sin(p) * b),
+        ("exp:p*var", lambda: pos() ** (p * b)),
+        ("exp:p+var", lambda: pos() ** (p + b)),
+        ("exp:const-base", lambda: Constant(2.0) ** (p * a * b)),
+        ("exp:ps-base", lambda: Vc.VectorPowerSum(x, 2) ** p),
+        ("exp:dot-base", lambda: (x.dot(x) + 1.0) ** p),
+        ("exp:l2-base", lambda: Vc.L2Norm(x) ** p),
+        # --- coefficient (left / middle / right, compound, beside the nodes with per-node shortcuts)
+        ("coef:left", lambda: p * a * a * b),
+        ("coef:mid", lambda: a * p * a * b),
+        ("coef:right", lambda: (a * a * b) * p),
+        ("coef:fn", lambda: p * sin(a * b)),
+        ("coef:two", lambda: (p * a) * (q * b) * a),
+        ("coef:sum", lambda: p * a ** 3 + q * a * b),
+        ("coef:neg", lambda: -p * a * a + a * b * b),
+        ("coef:2p", lambda: (2.0 * p) * a * b * b),
+        ("coef:p-q", lambda: (p - q) * a * a * b),
+        ("coef:1/p", lambda: a * a * b / p),
+        ("coef:pq", lambda: p * q * a * a * b),
+        ("coef:p**2", lambda: p ** 2 * a * a * b + a ** 2 * q),
+        ("coef:ps", lambda: p * Vc.VectorPowerSum(x, 3)),
+        ("coef:us", lambda: p * Vc.VectorUnarySum(x, "sin")),
+        ("coef:dot", lambda: p * x.dot(x)),
+        ("coef:qf", lambda: p * Mx.QuadraticForm(x, Q)),
+        ("coef:lc**2", lambda: p * Vc.LinearCombination(cs, x) ** 2),
+        ("coef:l2", lambda: Vc.L2Norm(x) * p),
+        ("coef:ps/p", lambda: Vc.VectorPowerSum(x, 3) / p + q * x.sum() ** 2),
+        # --- base
+        ("base:p**a", lambda: p ** a * b),
+        ("base:(p+..)**2.5", lambda: (p + a * a + 1.5) ** 2.5 * b),
+        ("base:(pa)**3", lambda: (p * a) ** 3 * b),
+        ("base:(pa+b)**2", lambda: (p * a + b) ** 2),
+        ("base:(p+c)**ab", lambda: (p + 1.5) ** (a * b)),
+        # --- additive term / inside functions / denominators
+        ("add:cube", lambda: (a + p) ** 3 * b),
+        ("add:sin", lambda: sin(a * p + q) * b),
+        ("add:exp", lambda: exp(tanh(p * a * b))),
+        ("add:log", lambda: log(a * a + p * p + 1.0) * b),
+        ("add:sqrt", lambda: sqrt(a * a + b * b + p * p + 1.0)),
+        ("add:p-", lambda: (p - a * b) ** 2),
+        ("add:plain", lambda: a * a * b + p),
+        ("den:pp", lambda: a * b / (p * p + 1.0 + a * a)),
+        ("den:p", lambda: a / (b * b + p + 3.0)),
+        # --- inside vector nodes
+        ("vec:dot-params", lambda: Vc.DotProduct(x * x, VE([p, q, p * q]))),
+        ("vec:sin-dot", lambda: sin(Vc.DotProduct(x, VE([p, q, p - q])))),
+        ("vec:es", lambda: VE([p * x0 * x0, x1 ** p, q * x2 * x0]).sum()),
+        ("vec:l2", lambda: Vc.L2Norm(VE([p * x0, x1 + q, x2]))),
+        ("vec:qf", lambda: Mx.QuadraticForm(VE([p * x0, x1, x2 ** p]), Q)),
+        ("vec:lc", lambda: Vc.LinearCombination(cs, VE([x0 ** p, p * x1 * x1, x2 * x0]))),
+        ("vec:l1", lambda: Vc.L1Norm(VE([p * x0 * x0, x1 * x2, q * x2]))),
+        ("vec:dot-pow", lambda: Vc.DotProduct(VE([x0 ** p, x1 ** q, x2 ** 2]), x)),
+    ]
+    out = []
+    for tag, f in mk:
+        try:
+            out.append(("par:" + tag, f()))
+        except Exception as ex:  # noqa: BLE001
+            J.AUDIT_SKIPPED[f"param-member:{type(ex).__name__}"] = J.AUDIT_SKIPPED.get(f"param-member:{type(ex).__name__}", 0) + 1
+    return out
+
+
+def n_param_members(U):
+    from optyx import Parameter
+
+    return len(param_members(U, Parameter("p", 1.5), Parameter("q", -0.5)))
+
+
+def history_orders(own, U, k):
+    """the declared-variable lists of one history: the own order (the first differentiation uses it) and, rotating with k, a
+    permutation and a superset"""
+    extras = [v for v in (U.scalars[2], U.y[0]) if v.name not in {o.name for o in own}]
+    rot = list(own[1:]) + list(own[:1])
+    alts = [("rev", list(reversed(own))), ("super-mid", list(own[:1]) + extras[:1] + list(own[1:])),
+            ("rev+extra-first", extras[:1] + list(reversed(own))), ("rot+extra-last", rot + extras[1:2])]
+    return [("own", list(own)), alts[k % len(alts)]]
+
+
+def plan_history(rng, mi, vi, first):
+    """one history for member mi starting at PARAM_V0[vi]: typed start values and two typed set steps"""
+    v0 = PARAM_V0[vi]
+    w0 = PARAM_V0[(vi + 1 + mi) % len(PARAM_V0)]
+    v1 = rng.choice([v for v in PARAM_V1 if v != v0])
+    w1 = rng.choice([w0] + [v for v in PARAM_V1 if v != w0])
+    v2 = rng.choice([v for v in (0.0, 1.0, v0, 2.5, -2.0, 3.0) if v != v1])
+    w2 = rng.choice([v for v in PARAM_V1 if v != w1])
+    return {"first": first, "start": [typed_value(rng, v0), typed_value(rng, w0)],
+            "sets": [[typed_value(rng, v1), typed_value(rng, w1)], [typed_value(rng, v2), typed_value(rng, w2)]]}
+
+
+def compare_routes(e, V, xs, routes, stage, fails):
+    """routes: [(label, n×n array | 'raise:…')] at ONE point and the CURRENT parameter values. returns (checked, skipped)"""
+    want = oracle_hessian(e, V, xs)
+    if want is None:
+        return 0, 1
+    n = len(V)
+    checked = 0
+    bad = None
+    for label, vals in routes:
+        if isinstance(vals, str) or np.shape(vals) != (n, n):
+            bad = {"what": f"Hessian route failed at a regular point / wrong shape: {vals if isinstance(vals, str) else np.shape(vals)}",
+                   "route": label}
+            break
+        if label.startswith("compile") and not np.array_equal(vals, vals.T):
+            bad = {"what": "compiled Hessian is not symmetric", "route": label, "got": np.asarray(vals).tolist()}
+            break
+        for i in range(n):
+            for j in range(n):
+                checked += 1
+                if not oracle.close(float(vals[i, j]), want[i][j], rtol=1e-6, atol=1e-7):
+                    bad = {"what": "Hessian entry differs from the true second partial derivative at the CURRENT parameter values",
+                           "route": label, "i": i, "j": j, "vi": V[i].name, "vj": V[j].name, "got": float(vals[i, j]),
+                           "want": want[i][j]}
+                    break
+            if bad:
+                break
+        if bad:
+            break
+    if bad:
+        if not well_conditioned(e, V, xs, want):
+            return checked, 1
+        bad.update({"stage": stage, "x": [float(t) for t in xs], "V_names": [v.name for v in V]})
+        fails.append(bad)
+    return checked, 0
+
+
+def run_param_history(e, params, orders, hist, points):
+    """drive one expression object through `hist`; params = [p, q] (the objects inside e); orders = [(name, V)], the first one
+    is used by the first differentiation; points = {order name: [xs, …]}.  returns (failures, entries checked, skipped)"""
+    import optyx.core.autodiff as AD
+    import optyx.core.compiler as CC
+
+    fails, checked, skipped = [], 0, 0
+    held = []           # (label, kind, order name, V, object): kind 'fn' = compiled callable, 'sym' = matrix of expressions
+    V0 = orders[0][1]
+    covered = J.names_of([e]) <= {v.name for v in V0}
+    if not covered:
+        return fails, 0, 1
+
+    def now():
+        return [float(np.asarray(p_.value)) for p_ in params]
+
+    def judge(stage, items):
+        nonlocal checked, skipped
+        for on, V in orders:
+            for xs in points[on]:
+                point = {v.name: float(t) for v, t in zip(V, xs)}
+                x = np.array(xs, dtype=float)
+                routes = []
+                for label, kind, on2, V2, obj in items:
+                    if on2 != on:
+                        continue
+                    if isinstance(obj, str):
+                        routes.append((label, obj))
+                    elif kind == "fn":
+                        routes.append((label + ":" + getattr(obj, "__name__", "?"), J.grab(lambda: np.asarray(obj(x), dtype=float))))
+                    else:
+                        n = len(V)
+                        routes.append((label, J.grab(lambda: np.array([[float(np.asarray(obj[i][j].evaluate(point)))
+                                                                         for j in range(n)] for i in range(n)]))))
+                if not routes:
+                    continue
+                before = len(fails)
+                c, s = compare_routes(e, V, xs, routes, stage, fails)
+                checked += c; skipped += s
+                for f in fails[before:]:
+                    f["order"] = on
+                    f["param_values"] = now()
+                if fails:
+                    return True
+        return False
+
+    first = hist["first"]
+    if first == "hessian":
+        held.append(("compile_hessian built at the start values", "fn", orders[0][0], V0, J.grab(lambda: AD.compile_hessian(e, V0))))
+    elif first == "symbolic":
+        held.append(("compute_hessian built at the start values", "sym", orders[0][0], V0, J.grab(lambda: AD.compute_hessian(e, V0))))
+    elif first == "gradient":
+        for v in V0:
+            J.grab(lambda: AD.gradient(e, v))
+    elif first == "jacobian":
+        J.grab(lambda: AD.compile_jacobian([e], V0))
+        J.grab(lambda: CC.compile_gradient(e, V0))
+    if held and judge(0, held):
+        return fails, checked, skipped
+    for si, step in enumerate(hist["sets"]):
+        for p_, tv in zip(params, step):
+            p_.set(make_value(tv))
+        new = []
+        for oi, (on, V) in enumerate(orders):
+            new.append((f"compile_hessian built after set #{si + 1}", "fn", on, V, J.grab(lambda: AD.compile_hessian(e, V))))
+            if (oi + si) % 2 == 1 or len(orders) == 1:
+                new.append((f"compute_hessian built after set #{si + 1}", "sym", on, V, J.grab(lambda: AD.compute_hessian(e, V))))
+        if si == 0:
+            new.append(("compile_hessian(e + 0) built after set #1", "fn", orders[0][0], V0, J.grab(lambda: AD.compile_hessian(e + 0.0, V0))))
+        if judge(si + 1, held + new):
+            return fails, checked, skipped
+        held += new
+    return fails, checked, skipped
+
+
+def history_payload(tag, e, params, orders, hist, points, f):
+    """make a history failure replayable: the expression is serialised with its parameters at the START values"""
+    cur = [p_.value for p_ in params]
+    f.update({"kind": "param-history", "tag": tag, "history": hist, "points": points})
+    try:
+        for p_, tv in zip(params, hist["start"]):
+            p_.set(float(tv[1]))
+        Vall = []
+        for _, V in orders:
+            Vall += [v for v in V if v.name not in {u.name for u in Vall}]
+        f.update(J.payload_of([e], Vall, f.get("x", []), J.all_params([e])))
+        f["param_names"] = [p_.name for p_ in params]
+        f["orders"] = [[on, [[u.name for u in Vall].index(v.name) for v in V]] for on, V in orders]
+    except Unsupported:
+        f["exprs_repr"] = [repr(e)[:200]]
+    finally:
+        for p_, v in zip(params, cur):
+            p_.set(v)
+    return f
+
+
+def param_history_failures(rng, thorough, rep=None, only_first=False, forced_every=0):
+    """the whole family.  quick: every member × every start value with the first-differentiation channel rotating (+ one
+    control history per member); thorough / search: every member × start value × channel.  returns the failures"""
+    from optyx import Parameter
+
+    out = []
+    U = gen.Universe(rng)
+    n_hist = 0
+    for mi in range(n_param_members(U)):
+        for vi in range(len(PARAM_V0)):
+            firsts = list(PARAM_FIRST) + ["none"] if thorough else [PARAM_FIRST[(mi + vi) % len(PARAM_FIRST)]]
+            if not thorough and vi == mi % len(PARAM_V0):
+                firsts.append("none")
+            for first in firsts:
+                hist = plan_history(rng, mi, vi, first)
+                p = Parameter("p", make_value(hist["start"][0]))
+                q = Parameter("q", make_value(hist["start"][1]))
+                members = param_members(U, p, q)
+                if mi >= len(members):
+                    continue
+                tag, e = members[mi]
+                own = J.own_vars(e)
+                orders = history_orders(own, U, mi + vi + n_hist)
+                points = {on: [J.rand_x(rng, len(V), True), J.rand_x(rng, len(V), rng.random() < 0.5)] for on, V in orders}
+                forced = forced_every and n_hist % forced_every == 0
+                n_hist += 1
+                if forced:
+                    with J.forced_thresholds(2):
+                        fails, checked, skipped = run_param_history(e, [p, q], orders, hist, points)
+                else:
+                    fails, checked, skipped = run_param_history(e, [p, q], orders, hist, points)
+                if rep is not None:
+                    rep.histogram["param_histories"] = rep.histogram.get("param_histories", 0) + 1
+                    rep.histogram["param_history_entries"] = rep.histogram.get("param_history_entries", 0) + checked
+                    rep.histogram["param_history:first=" + first] = rep.histogram.get("param_history:first=" + first, 0) + 1
+                    if skipped:
+                        rep.skipped["param-history-irregular-or-ill-conditioned-point"] = \
+                            rep.skipped.get("param-history-irregular-or-ill-conditioned-point", 0) + skipped
+                for f in fails:
+                    if forced:
+                        f["thresholds_forced"] = 2
+                    out.append(history_payload(tag, e, [p, q], orders, hist, points, f))
+                    if only_first:
+                        return out
+                if fails:
+                    break           # one failure per (member, start value) is enough
+    return out
+
+
+def replay_param_history(f) -> bool:
+    import contextlib
+
+    if "exprs" not in f:
+        print("no serialisable expression:", {k: f[k] for k in f if k != "got"})
+        return False
+    es, Vall, _ = J.rebuild(dict(f, x=[]))
+    e = es[0]
+    from optyx import Parameter
+
+    by_name = {p_.name: p_ for p_ in J.all_params([e])}
+    params = [by_name.get(nm) or Parameter(nm, 0.0) for nm in f["param_names"]]       # a parameter the expression does not use
+    hist = f["history"]
+    for p_, tv in zip(params, hist["start"]):
+        p_.set(make_value(tv))
+    orders = [(on, [Vall[i] for i in idx]) for on, idx in f["orders"]]
+    cm = J.forced_thresholds(int(f["thresholds_forced"])) if f.get("thresholds_forced") is not None else contextlib.nullcontext()
+    with cm:
+        fails, checked, skipped = run_param_history(e, params, orders, hist, f["points"])
+    print("history:", hist)
+    print("entries checked:", checked, "points skipped:", skipped)
+    for g in fails:
+        print("FAIL:", g)
+    return not fails
+
+
 def run(ctx) -> core.Report:
     rng = ctx["rng"]
     thorough = ctx["tier"] == "thorough" or ctx["escalate"]
     rep = core.Report(rule="every compile_hessian cell: VectorPowerSum (k = 1, 2, general incl. fractional / negative) and "
                            "VectorUnarySum (10 ops) × views × V ∈ {own, reversed, permuted, superset, interleaved, clones, "
-                           "missing variable}; vector / matrix / scalar nodes on the general path; seeded random regular trees. "
+                           "missing variable}; vector / matrix / scalar nodes on the general path; seeded random regular trees; "
+                           "Parameters in every position × (differentiate at v0, Parameter.set, old + new Hessians at the current values). "
                            "non-trivial = distinct (expression, V) whose symbolic Hessian is not identically 0")
     J.AUDIT_SKIPPED.clear()
     del J.RETAINED[:]
@@ -370,6 +744,9 @@ def run(ctx) -> core.Report:
                 rep.oracle_failures.append(f)
     J.recheck_retained()
     rep.oracle_failures.extend(J.RETAINED_FAILS)
+    # Parameters in every position × differentiate / compile at v0, Parameter.set, old and new Hessians at the CURRENT values;
+    # every fourth history with the recursion thresholds forced low (the explicit-stack differentiator has its own rules)
+    rep.oracle_failures.extend(param_history_failures(rng, thorough, rep, forced_every=4))
     # a sample of the cells again with every recursion threshold forced low (explicit-stack differentiator / compiler)
     with J.forced_thresholds(2):
         for tag, e, V, xs, params, idx in metas[::(3 if thorough else 9)]:
@@ -399,6 +776,11 @@ def search(ctx, rep):
                 return f
         return None
 
+    # (0) value-dependent decisions on Parameters: every member × start value × first-differentiation channel
+    for rnd in range(2):
+        found = param_history_failures(rng, True, None, only_first=True, forced_every=3)
+        if found:
+            return found[0]
     # (1) rule / simplifier interaction family (powers of powers, functions of powers, …) at every sign pattern
     U = gen.Universe(rng)
     for tag, e in J.composition_exprs(U):
@@ -440,6 +822,8 @@ def replay(payload) -> bool:
     f = payload["failure"]
     if f.get("kind") == "call-sequence":
         return J.replay_sequence(f)
+    if f.get("kind") == "param-history":
+        return replay_param_history(f)
     if "exprs" not in f:
         print("no serialisable expression (outside the Lean syntax):", {k: f[k] for k in f if k != "got"})
         return False
